@@ -4,7 +4,7 @@ import numpy as np
 from common import *
 
 ID = "C08"
-THEOREM_FILES = ["Summer.Props.C08", "Summer.Props.C08Source", "Summer.Props.C08Values", "Summer.Props.C07Pipeline", "Summer.Props.C14Source"]
+THEOREM_FILES = ["Summer.Props.C08", "Summer.Props.C08Source", "Summer.Props.C08Values", "Summer.Props.C07Pipeline", "Summer.Props.C14Source", "Summer.Props.C08EndToEnd"]
 TASK = "task"
 RULE = ("programs with 1-8 requests of all kinds (compartment, raw and non-raw flow, aggregate, cumulative with start None/t0/interior, "
         "function of earlier outputs and parameters, computed value) chained to depth 4, strata filters, run with euler / rk4 / adaptive; "
